@@ -20,7 +20,8 @@ type skipRow struct {
 	also    []string
 	id      string
 	pkg, fn string
-	emits   string   // name of the slice the loop appends to
+	emits   string   // name of the slice the loop appends to ("" = any loop of the function)
+	brk     bool     // judge `break` statements (leaving the loop) instead of `continue`
 	require []string // atoms (text; leading "!" = must be false) that must guard every skip
 	allow   []string // further atoms that may appear (either polarity)
 	min     int
@@ -28,6 +29,12 @@ type skipRow struct {
 }
 
 var skipRows = []skipRow{
+	{prop: "C20", also: []string{"C06", "C08", "C07"}, id: "scan-ends-only-at-the-callers-match", pkg: "decoder", fn: "recoverLeftBytes", brk: true,
+		require: []string{"f(offset, nextRune)"}, min: 0,
+		why: "the backward scan for incomplete configuration ends only where the caller's predicate matches (or at the start of the file): what counts as a boundary is the caller's decision"},
+	{prop: "C20", also: []string{"C06", "C08", "C07"}, id: "scan-ends-only-at-the-callers-match", pkg: "decoder", fn: "recoverRightBytes", brk: true,
+		require: []string{"f(offset, nextRune)"}, min: 0,
+		why: "the forward scan for incomplete configuration ends only where the caller's predicate matches (or at the end of the file)"},
 	{prop: "C09", also: []string{"C10", "C14"}, id: "optional-step-skipped-only-when-absent", pkg: "decoder", fn: "resolveBlockAddress", emits: "address",
 		require: []string{"!ok", "step.IsOptional"}, min: 1,
 		why: "an address step is left out only when it is optional and its attribute is not written at all; a written attribute with a null, unknown or non-string value makes the block unaddressable (it must not take the address of the block without that step)"},
@@ -48,8 +55,19 @@ func runSkipRows(prop string) func(p *Prog, r *Report) {
 				}
 				info := fn.Info()
 				ast.Inspect(fn.Body, func(x ast.Node) bool {
-					br, ok := x.(*ast.BranchStmt)
-					if !ok || br.Tok != token.CONTINUE {
+					var br ast.Stmt
+					if b, ok := x.(*ast.BranchStmt); ok {
+						want := token.CONTINUE
+						if rw.brk {
+							want = token.BREAK
+						}
+						if b.Tok != want {
+							return true
+						}
+						br = b
+					} else if rs, ok := x.(*ast.ReturnStmt); ok && rw.brk {
+						br = rs // a return from inside the loop leaves it as well
+					} else {
 						return true
 					}
 					// the loop it continues must append to rw.emits
@@ -85,11 +103,28 @@ func runSkipRows(prop string) func(p *Prog, r *Report) {
 						}
 						return true
 					})
+					if rw.emits == "" {
+						emitsHere, emittedBefore = true, false
+					}
+					if rw.brk {
+						// a break inside a switch / select leaves that statement, not the loop
+						for q := p.Parent(br); q != nil && q != loop; q = p.Parent(q) {
+							switch q.(type) {
+							case *ast.SwitchStmt, *ast.TypeSwitchStmt, *ast.SelectStmt:
+								return true
+							}
+						}
+					}
 					if !emitsHere || emittedBefore {
 						return true
 					}
 					sites++
-					f := guardsAtBranch(p, fn, br)
+					var f *Formula
+					if _, isRet := br.(*ast.ReturnStmt); isRet {
+						f = fn.GuardsAt(br)
+					} else {
+						f = guardsAtBranch(p, fn, br)
+					}
 					var extra, missing []string
 					seen := map[string]bool{}
 					for _, a := range f.AllAtoms() {
@@ -98,6 +133,9 @@ func runSkipRows(prop string) func(p *Prog, r *Report) {
 						}
 						if a.E.Pos().IsValid() && (a.E.Pos() < loop.Pos() || a.E.Pos() >= loop.End()) {
 							continue // established before the loop: not a per-element condition
+						}
+						if fs, ok := loop.(*ast.ForStmt); ok && fs.Cond != nil && nodeContains(fs.Cond, a.E) {
+							continue // the loop's own condition
 						}
 						txt := cmpText(fn.viewExpr(a.E))
 						pol := a.Pol
